@@ -77,19 +77,28 @@ func main() {
 		return
 	}
 
-	// ---- 1. model checking runs in the background while sessions are played
-	mcDone := make(chan []mcResult, 1)
-	go func() { mcDone <- runModelChecks(thorough) }()
-
-	// ---- 2. scenarios
-	rng := rand.New(rand.NewSource(seed*7919 + 11))
+	// ---- 1. replay scripts: one TLC run (-workers 1) per family, side by side
 	var scs []*Scenario
 	nReplay := 0
-	for _, fam := range replayFamilies(thorough) {
-		fs := exportScripts(c, fam, rng, thorough)
+	fams := replayFamilies(thorough)
+	famScs := make([][]*Scenario, len(fams))
+	var ewg sync.WaitGroup
+	for i, fam := range fams {
+		ewg.Add(1)
+		go func(i int, fam family) {
+			defer ewg.Done()
+			famScs[i] = exportScripts(c, fam, rand.New(rand.NewSource(seed*7919+int64(i))), thorough)
+		}(i, fam)
+	}
+	ewg.Wait()
+	for _, fs := range famScs {
 		nReplay += len(fs)
 		scs = append(scs, fs...)
 	}
+	// ---- 2. model checking runs in the background while the sessions are played
+	mcDone := make(chan []mcResult, 1)
+	go func() { mcDone <- runModelChecks(thorough) }()
+	rng := rand.New(rand.NewSource(seed*7919 + 11))
 	nRandom := 160
 	if thorough {
 		nRandom = 1500
@@ -373,6 +382,7 @@ func exportScripts(c *vlib.Check, fam family, rng *rand.Rand, thorough bool) []*
 		vlib.Infra("script export %s failed: %v %s", fam.name, err, v)
 	}
 	c.AddStates(res.Distinct, res.Generated)
+	fmt.Fprintf(os.Stderr, "[c11] script export %s: %d states, %.0fs\n", fam.name, res.Distinct, res.WallS)
 	var lines []histLine
 	keys := map[string]bool{}
 	keyOf := func(h histLine, n int) string {
@@ -416,16 +426,16 @@ func exportScripts(c *vlib.Check, fam family, rng *rand.Rand, thorough bool) []*
 	// seeded sample, but always with the histories that exhibit the known deviations
 	rng.Shuffle(len(maxl), func(i, j int) { maxl[i], maxl[j] = maxl[j], maxl[i] })
 	sort.SliceStable(maxl, func(i, j int) bool { return special(maxl[i]) > special(maxl[j]) })
-	nInitBad := 0
+	nDupStop := 0
 	var out []*Scenario
 	for _, h := range maxl {
 		if len(out) >= fam.limit {
 			break
 		}
-		if h.H[0].A.Name == "CSend" && h.H[0].A.ID == "initbad" {
-			nInitBad++
-			if nInitBad > 1 {
-				continue // each costs two confirmation waits
+		if dupThenStop(h) {
+			nDupStop++
+			if nDupStop > 1 {
+				continue // the open finding dup-start:stop-does-not-cancel-first-operation: each costs the two absence waits
 			}
 		}
 		sc := scriptScenario(fam, h, fmt.Sprintf("%s-%d", fam.name, len(out)))
@@ -449,6 +459,20 @@ func exportScripts(c *vlib.Check, fam family, rng *rand.Rand, thorough bool) []*
 		}
 	}
 	return out
+}
+
+// dupThenStop: a stop of an id that was started twice without the first operation having ended
+func dupThenStop(h histLine) bool {
+	starts := map[string]int{}
+	for _, e := range h.H {
+		if e.A.Name == "CSend" && e.A.ID == "start" && e.A.K == 0 {
+			starts[strings.TrimRight(e.A.I, "0123456789")]++
+		}
+		if e.A.Name == "CSend" && e.A.ID == "stop" && starts[e.A.I] >= 2 {
+			return true
+		}
+	}
+	return false
 }
 
 // special ranks histories so that the ones showing the known deviations are always replayed
